@@ -7,6 +7,7 @@ cells), in every build configuration.
 """
 from ..astq import AstDB
 from ..engines import e3_tables as e3
+from ..engines import e9_safety as e9
 
 LEVEL = "other"
 
@@ -23,6 +24,7 @@ def run(chk):
         e3.table_crossing_update(db, chk, cfg)
         e3.table_insertion_wind(db, chk, cfg)
         e3.table_crossing_dispatch(db, chk, cfg)
+        e9.rule_int64_product(db, chk, cfg)
     chk.rule("T.wind-crossing", "the winding-count update of IntersectEdges equals the definition (crossing an edge left-to-right adds its "
              "wind_dx; wind_cnt is the side farther from zero; wind_cnt2 is the other type's region winding), for same-type and cross-type "
              "crossings, EvenOdd and the three signed rules, all direction pairs, every reachable winding cell")
@@ -32,6 +34,8 @@ def run(chk):
              "solution boundary for its counts; counts of the two AEL-adjacent edges geometrically consistent) the calls made "
              "(AddLocalMaxPoly / AddLocalMinPoly / AddOutPt / SwapOutrecs) leave each edge carrying output iff it is on the boundary for "
              "its updated counts")
+    chk.rule("INT64.product", "no product is formed in a signed 64-bit integer type: C01 holds for coordinates up to 2^61, where any product of "
+             "two coordinate differences wraps (TopX, intersection points and orientation tests work in double or 128-bit arithmetic)")
     chk.floor("T.cross-dispatch", 11000 * len(cfgs))
     chk.floor("T.closed", 1300 * len(cfgs))
     chk.floor("T.wind-crossing", 14000 * len(cfgs))
